@@ -34,6 +34,11 @@ type serverConn struct {
 
 	closeOnce sync.Once
 	debug     Debugger
+
+	// Set when the connection is closed, together with the reason.
+	closed      bool
+	closeReason Reason
+	closedMu    sync.Mutex
 }
 
 func newServerConn(
@@ -161,6 +166,15 @@ func (c *serverConn) connect(header *parser.PacketHeader, decode parser.Decode) 
 
 	c.sockets.set(socket)
 	c.nsps.set(nsp)
+
+	// The connection might have been closed while the middlewares were running.
+	// `onClose` can have missed this socket, so close it here. (Closing a socket twice is harmless.)
+	c.closedMu.Lock()
+	closed, reason := c.closed, c.closeReason
+	c.closedMu.Unlock()
+	if closed {
+		socket.onClose(reason)
+	}
 }
 
 func (c *serverConn) connectError(message any, nsp string) {
@@ -235,6 +249,11 @@ func (c *serverConn) onClose(reason Reason, err error) {
 	// We don't want it to close more than once,
 	// so we use sync.Once to avoid running onClose more than once.
 	c.closeOnce.Do(func() {
+		c.closedMu.Lock()
+		c.closed = true
+		c.closeReason = reason
+		c.closedMu.Unlock()
+
 		sockets := c.sockets.getAndRemoveAll()
 		for _, socket := range sockets {
 			socket.onClose(reason)
